@@ -24,7 +24,7 @@ _UNIVERSES = {}
 def universe(name):
     if name not in _UNIVERSES:
         _UNIVERSES[name] = {"U-T3": U.U_T3, "U-S2": U.U_S2, "U-S2d2": lambda: U.U_S2(2), "U-S3": U.U_S3,
-                            "U-S4r": U.U_S4r}[name]()
+                            "U-S4r": U.U_S4r, "U-T4r": U.U_T4r}[name]()
     return _UNIVERSES[name]
 
 
